@@ -10,6 +10,7 @@ import asyncio
 import json
 import math
 import random
+import traceback
 from asyncio import CancelledError
 
 import core
@@ -22,7 +23,7 @@ OPN = {0: "SendNowait", 1: "RecvNowait", 2: "Send", 3: "Recv", 4: "Clone", 5: "C
 # result codes (MemStream.res_code)
 DONE, BLOCKED, CANCELLED, WOULDBLOCK, CLOSED, BROKEN, EOS, ITEM, HANDLE, REJECTED, NONE = range(11)
 RESN = {0: "Done", 1: "Blocked", 2: "Cancelled", 3: "WouldBlock", 4: "Closed", 5: "Broken", 6: "EndOfStream",
-        7: "Item", 8: "Handle", 9: "Rejected", 10: "None", 11: "UnexpectedException"}
+        7: "Item", 8: "Handle", 9: "Rejected", 10: "None", 11: "UnexpectedException", 12: "InfeasibleOp"}
 OBS = 7  # integers per step in the observation list
 
 _SWALLOWED = object()  # the CancelScope around the call swallowed its own cancellation
@@ -73,6 +74,8 @@ class MSRun:
         self.m_last_blocked_recv = (-1, -1)    # (block stamp, entered index) of the last served blocked receiver
         self.m_loss_budget = 0                 # native Task.cancel() on a receiver in its hand-over cycle
         self.steps = 0
+        self.infeasible = 0
+        self.crash = None
         self._served: list = []
 
     def maxcode(self) -> int:
@@ -174,8 +177,34 @@ class MSRun:
                     task.uncancel()
         return cmd
 
+    def feasible(self, c, a, b):
+        """Can the implementation be asked to perform this op now?  (Scripted cases only: generated cases are built
+        from enabled().  A script that stops being executable is itself a correspondence failure.)"""
+        w = self.world
+        if c in (CLONE, CLOSE):
+            return b in self.handles
+        p = w.puppets.get(a)
+        if p is None:
+            return False
+        if c in (SENDNW, RECVNW, SEND, SEND_SC, RECV, RECV_SC):
+            want = "send" if c in (SENDNW, SEND, SEND_SC) else "recv"
+            return p.at_decision and b in self.handles and self.side(b) == want
+        if c == RESUME:
+            return (not p.at_decision) and w.runnable(p)
+        if c == CANCEL:
+            return not p.at_decision
+        if c == SCANCEL:
+            return (not p.at_decision) and bool(self.cur.get(a)) and self.cur[a].get("scope") is not None
+        return True
+
     def do(self, c, a, b, d):
         w = self.world
+        if not self.feasible(c, a, b):
+            self.infeasible += 1
+            self.ops += [c, a, b, d]
+            self.outs += [12, 0] + self.stats()
+            self.steps += 1
+            return
         before = self.stats()
         pre = {t: (not p.at_decision and w.runnable(p)) for t, p in w.puppets.items()}
         out = None
@@ -559,17 +588,24 @@ def new_run(maxbuf, ntasks):
 
 
 def run_script(maxbuf, ntasks, flat_ops, quiesce=True):
-    with new_run(maxbuf, ntasks) as r:
-        for i in range(0, len(flat_ops), 4):
-            c, a, b, d = flat_ops[i:i + 4]
-            r.do(c, a, b, d)
-            if c in (SENDNW, SEND, SEND_SC):
-                r.next_item = max(r.next_item, d + 1)
-        r.enabled_at_end = r.enabled()
-        r.next_item_at_end = r.next_item
-        r.prefix_len = len(r.ops)
-        if quiesce:
-            r.quiesce()
+    r = new_run(maxbuf, ntasks)
+    r.enabled_at_end = []
+    r.next_item_at_end = 1
+    r.prefix_len = 0
+    try:
+        with r:
+            for i in range(0, len(flat_ops), 4):
+                c, a, b, d = flat_ops[i:i + 4]
+                r.do(c, a, b, d)
+                if c in (SENDNW, SEND, SEND_SC):
+                    r.next_item = max(r.next_item, d + 1)
+            r.enabled_at_end = r.enabled()
+            r.next_item_at_end = r.next_item
+            r.prefix_len = len(r.ops)
+            if quiesce:
+                r.quiesce()
+    except BaseException:  # noqa: BLE001 - a harness failure on one case must not hide the others
+        r.crash = traceback.format_exc()[-1500:]
     return r
 
 
@@ -594,27 +630,32 @@ def random_case(rng: random.Random, nsteps: int, profile: str):
     wts[RESUME] *= rng.choice([0.4, 1, 1.6])       # low: many tasks stay blocked at the same time
     wts[CLOSE] *= rng.choice([0.3, 1, 1, 2])
     bias_send = rng.choice([0.5, 1, 2])
-    with new_run(maxbuf, ntasks) as r:
-        for _ in range(nsteps):
-            en = r.enabled()
-            ws = []
-            for (c, t, h) in en:
-                wgt = wts[c]
+    r = new_run(maxbuf, ntasks)
+    r.prefix_len = 0
+    try:
+        with r:
+            for _ in range(nsteps):
+                en = r.enabled()
+                ws = []
+                for (c, t, h) in en:
+                    wgt = wts[c]
+                    if c in (SENDNW, SEND, SEND_SC):
+                        wgt *= bias_send
+                    if c in (SENDNW, SEND, SEND_SC, RECVNW, RECV, RECV_SC, CLONE) and not r.m_handles[h][1]:
+                        wgt *= 0.12          # operations on closed handles: keep some
+                    if c == CLOSE and not r.m_handles[h][1]:
+                        wgt *= 0.1
+                    ws.append(wgt)
+                c, t, h = rng.choices(en, ws)[0]
+                d = 0
                 if c in (SENDNW, SEND, SEND_SC):
-                    wgt *= bias_send
-                if c in (SENDNW, SEND, SEND_SC, RECVNW, RECV, RECV_SC, CLONE) and not r.m_handles[h][1]:
-                    wgt *= 0.12          # operations on closed handles: keep some
-                if c == CLOSE and not r.m_handles[h][1]:
-                    wgt *= 0.1
-                ws.append(wgt)
-            c, t, h = rng.choices(en, ws)[0]
-            d = 0
-            if c in (SENDNW, SEND, SEND_SC):
-                d = r.next_item
-                r.next_item += 1
-            r.do(c, t, h, d)
-        r.prefix_len = len(r.ops)
-        r.quiesce()
+                    d = r.next_item
+                    r.next_item += 1
+                r.do(c, t, h, d)
+            r.prefix_len = len(r.ops)
+            r.quiesce()
+    except BaseException:  # noqa: BLE001
+        r.crash = traceback.format_exc()[-1500:]
     return r
 
 
@@ -721,9 +762,15 @@ def shrink(maxbuf, ntasks, ops, prop):
             r = run_script(maxbuf, ntasks, o)
         except BaseException:  # noqa: BLE001
             return None
+        if r.infeasible or r.crash:
+            return None
         hits = [m for (p, m) in r.mon if p in (prop, "both")]
         return (r, hits) if hits else None
 
+    # a scripted case may contain ops the (possibly modified) implementation could not perform: drop those first
+    r0 = run_script(maxbuf, ntasks, ops, quiesce=False)
+    keep = [i for i in range(0, len(ops), 4) if i // 4 * OBS < len(r0.outs) and r0.outs[i // 4 * OBS] != 12]
+    ops = [x for i in keep for x in ops[i:i + 4]]
     best = trips(ops)
     if best is None:
         return None
@@ -811,7 +858,7 @@ def check(prop: str, tier: str) -> int:
                                   "impl_step": e[(k // OBS) * OBS:(k // OBS) * OBS + OBS],
                                   "model_step": m[(k // OBS) * OBS:(k // OBS) * OBS + OBS]})
     rejected = sum(1 for m in model_outs for i in range(0, len(m), OBS) if m[i] == REJECTED)
-    unexpected = sum(1 for e in expected for i in range(0, len(e), OBS) if e[i] == 11)
+    unexpected = sum(1 for e in expected for i in range(0, len(e), OBS) if e[i] in (11, 12))
     monitor_hits = [(r, msg) for r in runs for (p, msg) in r.mon if p in (prop, "both")]
     other_hits = sum(1 for r in runs for (p, msg) in r.mon if p not in (prop, "both"))
 
@@ -856,11 +903,19 @@ def check(prop: str, tier: str) -> int:
     if rejected:
         tie_broken.append(f"model rejected {rejected} ops the implementation performed")
     if unexpected:
-        tie_broken.append(f"{unexpected} steps raised an exception class outside the model's result enum")
+        tie_broken.append(f"{unexpected} steps raised an exception class outside the model's result enum or could not be executed as scripted")
+    crashed = [r for r in runs if r.crash]
+    if crashed:
+        tie_broken.append(f"the harness could not complete {len(crashed)} case(s) on the implementation: "
+                          + crashed[0].crash.strip().splitlines()[-1][:200])
     if not vm_ok and not disagreements:
         tie_broken.append("vm_compute sample disagrees with extracted model")
     if tie_broken and not monitor_hits:
         d = min(disagreements, key=lambda d: len(d["ops"])) if disagreements else None
+        if d is None and crashed:
+            c0 = min(crashed, key=lambda r: len(r.ops))
+            d = {"maxbuf": c0.maxcode(), "ntasks": c0.ntasks, "ops": c0.ops, "ops_readable": readable(c0.ops),
+                 "harness_traceback": c0.crash}
         rep.violation("; ".join(tie_broken), {"kind": "tie", "broken": tie_broken, "case": d,
                                                "monitor_hits_of_the_sibling_property": other_hits}, no_input=True)
 
